@@ -167,11 +167,7 @@ def check_typed(idx, ref, mt, m):
                             % (idx, m.body, rc.plain_body(ref.sig, ref.body)))
 
 
-def exc_key(e):
-    import traceback
-    tb = traceback.extract_tb(e.__traceback__)
-    fn = tb[-1].name if tb else '?'
-    return '%s in %s' % (type(e).__name__, fn)
+from simdbus.harness import exc_key  # noqa: E402
 
 
 def scenario(ctx):
